@@ -40,6 +40,7 @@ type Input struct {
 	Waits int    `json:"passive_waits,omitempty"` // ftp: data commands in the script that wait out a passive-socket timeout (30 s each)
 	Slow  bool   `json:"slow,omitempty"`          // needs a passive-socket timeout of wall-clock time: thorough tier only
 	Sweep *SweepIn `json:"sweep,omitempty"`       // part "sweep": an unmodelled service (then only this field and n count)
+	Dgram *DgramIn `json:"dgram,omitempty"`       // part "dgram": one service, one cluster of datagram sizes around buffer boundaries
 }
 
 type Obs struct {
@@ -658,13 +659,21 @@ func main() {
 	udpTerm = probeUDPTerm()
 	r := hx.NewRand(o.Seed)
 	var ins []Input
+	var dgIns []DgramIn
+	dgDist := map[string]int{}
 	if o.Only != "" {
 		var in Input
 		if err := hx.LoadReplay(o.Only, &in); err != nil {
 			hx.Fatal("replay: %v", err)
 		}
-		ins = []Input{in}
+		if in.Dgram != nil {
+			dgIns = []DgramIn{*in.Dgram}
+		} else {
+			ins = []Input{in}
+		}
 	} else {
+		dgIns, dgDist = dgramCases()
+		dgIns = append(dgIns, dgramProbes()...)
 		ins = append(ins, corpus()...)
 		per := 22
 		switch o.Tier {
@@ -830,6 +839,8 @@ func main() {
 		// the real server: recovered panics and a shared port with silent clients (waits out the
 		// server's own 30 s idle timeout: beside the pool)
 		ins = append(ins, Input{Svc: "deploy", Proto: "tcp", N: len(deploySteps()), Kind: "sweep", Slow: true, Sweep: &SweepIn{Svc: "deploy", Scenario: 20, N: len(deploySteps())}})
+		// the boundary-size datagrams through the real server and its socket listener (in the pool)
+		ins = append(ins, Input{Svc: "deploy-udp", Proto: "udp", N: len(deployUDPServices) + 1, Kind: "sweep", Sweep: &SweepIn{Svc: "deploy-udp", Scenario: 21, N: len(deployUDPServices) + 1}})
 		// the ftp data channel in every mode; the scenarios that wait out the 30 s passive-socket
 		// timeout sleep most of the time and run beside the worker pool
 		for _, sv := range []string{"ftp-data-plain", "ftp-data-tls"} {
@@ -838,6 +849,12 @@ func main() {
 					Sweep: &SweepIn{Svc: sv, Scenario: sc, N: 1}})
 			}
 		}
+	}
+	if os.Getenv("C09_ONLY_DGRAM") != "" { // development aid: part "dgram" alone
+		ins = nil
+	}
+	if os.Getenv("C09_SKIP_DGRAM") != "" { // development aid: timing comparison
+		dgIns = nil
 	}
 	// the bounded wait only has to separate "comes back" from "never comes back": generous, so
 	// that a loaded machine cannot turn a slow handler into a hanging one (it costs time only
@@ -868,6 +885,41 @@ func main() {
 	results := make([]result, len(ins))
 	var wg sync.WaitGroup
 	sem := make(chan struct{}, 6)
+	// part "dgram": one child per service runs all its clusters; in the pool from the start
+	dgResults := make([]dgResult, len(dgIns))
+	{
+		bySvc := map[string][]int{}
+		var svcOrder []string
+		for i, d := range dgIns {
+			if d.Svc == "probe" {
+				continue
+			}
+			if _, ok := bySvc[d.Svc]; !ok {
+				svcOrder = append(svcOrder, d.Svc)
+			}
+			bySvc[d.Svc] = append(bySvc[d.Svc], i)
+		}
+		for k, sv := range svcOrder {
+			wg.Add(1)
+			go func(k int, idxs []int) {
+				defer wg.Done()
+				sem <- struct{}{}
+				defer func() { <-sem }()
+				var cs []DgramIn
+				for _, i := range idxs {
+					cs = append(cs, dgIns[i])
+				}
+				t0 := time.Now()
+				rs := runDgramJob(cs, scratch, 100000+k, deadline, wait, perturb)
+				if os.Getenv("C09_TIMING") != "" {
+					fmt.Fprintf(os.Stderr, "dgram job %s: %d clusters %v\n", cs[0].Svc, len(cs), time.Since(t0).Round(time.Millisecond))
+				}
+				for j, i := range idxs {
+					dgResults[i] = rs[j]
+				}
+			}(k, bySvc[sv])
+		}
+	}
 	// cases that sleep through a 30 s timer first, beside the pool
 	order := make([]int, 0, len(ins))
 	for i := range ins {
@@ -1021,6 +1073,44 @@ func main() {
 	}
 	if len(wcases) > 0 {
 		hx.Write(o, "C09", "sweep", "From HT Require Import Common.Bytes C09.Sweep.", "case", wcases, distW, nil, 200)
+	}
+	var dcases []hx.Case
+	for i, d := range dgIns {
+		id := len(dcases)
+		in := Input{Svc: d.Svc, Proto: "udp", N: len(d.Items), Kind: "dgram", Dgram: &dgIns[i]}
+		if d.Svc == "probe" {
+			obs := runProbe(d)
+			dgDist["probe:DummyUDPConn.Read"]++
+			dcases = append(dcases, hx.Case{ID: id, Kind: "dgram/probe", Input: in, Obs: obs, Coq: coqProbe(id, d, obs)})
+			continue
+		}
+		r := dgResults[i]
+		if !r.run {
+			dgDist["not-run-after-handlers-that-did-not-return"]++
+			continue
+		}
+		dgDist["svc:"+d.Svc]++
+		for _, ob := range r.obs {
+			dgDist["datagrams"]++
+			dgDist["via:"+ob.Item.Via]++
+			dgDist["content:"+ob.Item.Content]++
+			dgDist["outcome:"+ob.Obs.Outcome]++
+			if ob.Obs.Relay == 1 {
+				dgDist["relayed-whole"]++
+			}
+			for _, b := range d.Boundaries {
+				if b == ob.Item.Size {
+					dgDist["exactly-on-a-boundary"]++
+				}
+			}
+		}
+		if len(d.FromSource) > 0 {
+			dgDist["clusters-with-buffer-sizes-read-from-source"]++
+		}
+		dcases = append(dcases, hx.Case{ID: id, Kind: "dgram/" + d.Svc, Input: in, Obs: r.obs, Crash: r.crash, Coq: coqDgram(id, d, r.obs)})
+	}
+	if len(dcases) > 0 {
+		hx.Write(o, "C09", "dgram", "From HT Require Import Common.Bytes C09.Model C09.Dgram.", "case", dcases, dgDist, map[string]interface{}{"fixed_boundaries": dgFixed, "library_boundaries": dgLibrary}, 60)
 	}
 }
 
